@@ -201,7 +201,7 @@ Section CoreInd.
       Forall (fun v => exists n ln, v = EName n ln /\ frag_name n = true) vars -> Forall core_e es -> Forall Pe es ->
       Ps (SAssign vars es l).
   Hypothesis C_local : forall ns ls at_ es l, forallb frag_name ns = true -> length ns = length ls ->
-                                              (length es <= length ns)%nat -> Forall core_e es -> Forall Pe es ->
+                                              Forall core_e es -> Forall Pe es ->
                                               Ps (SLocal ns ls at_ es l).
   Hypothesis C_localfunc : forall n nl f ps pl b lf va l,
       frag_name n = true -> core_e (EFunc [] f ps pl b lf va false) -> Pe (EFunc [] f ps pl b lf va false) ->
@@ -284,10 +284,10 @@ Section CoreInd.
       apply forallb_Forall in Hv. eapply Forall_impl; [|exact Hv].
       intros v Hvn. destruct v; try discriminate. eauto.
     - intros ns ls at_ es l IHes [Hf Hs]. cbn [frag_exp frag_stat frag_block shp_exp shp_stat shp_block forallb] in Hf, Hs.
-      apply andb_true_iff in Hf. destruct Hf as [Hf Hlen]. apply andb_true_iff in Hf. destruct Hf as [Hns Hfes].
+      apply andb_true_iff in Hf. destruct Hf as [Hns Hfes].
       apply andb_true_iff in Hs. destruct Hs as [Hl Hses].
       destruct (Forall_core_e es Pe Hfes Hses IHes) as [H1 H2].
-      apply C_local; auto; [apply Nat.eqb_eq; exact Hl | apply Nat.leb_le; exact Hlen].
+      apply C_local; auto; apply Nat.eqb_eq; exact Hl.
     - intros n nl f l IH [Hf Hs]. cbn [frag_exp frag_stat frag_block shp_exp shp_stat shp_block forallb] in Hf, Hs.
       apply andb_true_iff in Hf. destruct Hf as [Hn Hf]. destruct f as [l0|l0|l0|l0|l0|v0 l0|t0 l0|s0 l0|o0 x0 l0|o0 a0 b0 l0|ks0 vs0 l0|c0 f0 ps0 pl0 b0 l0 va0 co0|n0 l0|x0 l0|p0 k0 l0|p0 nm0 args0 l0]; try discriminate.
       assert (Hc : core_e (EFunc c0 f0 ps0 pl0 b0 l0 va0 co0)) by (split; assumption).
